@@ -77,7 +77,9 @@ def lean_files():
 
 
 def lake_build(targets, timeout=3000):
-    """build the given module targets; returns (ok, failed_modules, log)"""
+    """build the given module targets; returns (ok, failed_modules, log).  The combined driver library is never an obligation of a
+    property: each run interprets an entry file that imports only the driver modules it addresses (Driver.run)"""
+    targets = [t for t in targets if t != 'SarpyModel.Drivers'] or ['SarpyModel.Spec.PyPrelude']
     rc, out, err = sh(['lake', 'build'] + list(targets), cwd=LEAN, timeout=timeout)
     log = out + err
     failed = re.findall(r'^- (SarpyModel[\w.]*)', log, flags=re.M)
